@@ -169,3 +169,5 @@ func (w *World) Subscribe(ti, fn int, o SubOpts) error {
 func regKey(ti, fn int) int { return ti*100 + fn }
 
 func regName(key int) string { return fmt.Sprintf("E%02d/f%d", key/100, key%100) }
+
+func clearAll(w *World) { eventbus.ClearAll(w.Bus) }
